@@ -443,6 +443,39 @@ func GenTypes(t *rapid.T, o *Opts) *Spec {
 			o.class("feature:union_holder_reached_through_container")
 		}
 	}
+	if o.Unions == 2 && o.ContainerMembers && rapid.IntRange(0, 2).Draw(t, "containerMember") == 0 {
+		// a union member that is a named container of unions (of the same union: a recursive union, or of
+		// another one), declared outside the analysed file and only reachable through the union
+		var us []*tinfo
+		for _, ti := range g.types {
+			if ti.cat == "union" && ti.pkg == root && len(ti.d.Methods) > 0 && len(g.spec.Unions()[root.Path][ti.d.Name].Members) > 0 {
+				us = append(us, ti)
+			}
+		}
+		if len(us) > 0 {
+			u := us[rapid.IntRange(0, len(us)-1).Draw(t, "cmUnion")]
+			e := us[rapid.IntRange(0, len(us)-1).Draw(t, "cmElem")]
+			var ct *TypeRef
+			cat := "slice"
+			if rapid.Bool().Draw(t, "cmMap") {
+				ct, cat = Map(Basic("string"), g.refTo(root, e)), "map"
+			} else {
+				ct = Slice(g.refTo(root, e))
+			}
+			nd := &Decl{Kind: KNamed, Name: g.freshName(root, "cmName", true), Type: ct}
+			for _, meth := range g.fullMethodSet(root, u.d) {
+				nd.Impl = appendMethod(nd.Impl, Method{Name: meth})
+			}
+			g.newDecl(root, root.Files[1], nd, &tinfo{cat: cat, hasUnion: true, elemUnion: true})
+			h := &Decl{Kind: KStruct, Name: g.freshName(root, "cmHolder", true), Fields: []*Field{{Name: "Root", Type: g.refTo(root, u)}, {Name: "Title", Type: Basic("string")}}}
+			g.newDecl(root, root.Files[0], h, &tinfo{cat: "struct", hasUnion: true})
+			if u == e {
+				o.class("feature:recursive_union_through_container_member")
+			} else {
+				o.class("feature:container_of_unions_as_union_member")
+			}
+		}
+	}
 	if o.Recursion && rapid.IntRange(0, 3).Draw(t, "recursion") == 0 {
 		g.addRecursion(root)
 	}
